@@ -45,9 +45,10 @@ def programs(ctx, rawout=True):
             key = json.dumps(p, sort_keys=True)
             if key not in seen:
                 seen.add(key); progs.append(p)
-    # keep quick runs bounded: a seeded sample of the exhaustive family, the whole of it in thorough
-    if not th and len(progs) > 1500:
-        keep = set(ctx.rng.sample(range(len(progs)), 1500))
+    # keep runs bounded: a seeded sample of the exhaustive family
+    cap = 40000 if th else 1500      # the jq layer costs ~7 ms per tree; thorough takes a seeded sample of the exhaustive 3-call family
+    if len(progs) > cap:
+        keep = set(ctx.rng.sample(range(len(progs)), cap))
         progs = [p for i, p in enumerate(progs) if i in keep]
     cpath = os.path.join(ctx.build, 'jq_progs.ndjson')
     vlib.write_ndjson(cpath, progs)
